@@ -259,3 +259,16 @@ Proof.
     + intros [bs X]; discriminate.
   - intros s name d R. apply (file_exists_iff_fetch H). apply file_reach_ok. exact R.
 Qed.
+
+(* every finished race on an OCI layout, with the Writes split in any way, is an explored outcome *)
+Lemma split_writes (H : str -> str -> str) big blobs ts sched st' :
+  Forall (fun t => t_pc t = PStart /\ (length (stream (t_evs t)) <= S big)%nat) ts ->
+  crun H (mkC blobs ts) sched = Some st' ->
+  Forall (fun t => exists r, t_pc t = PDone r) (c_thr st') ->
+  exists is, crun H (mkC blobs ts) (map (fun i => (i, big)) is) = Some st' /\
+             forall fuel, (length is < fuel)%nat -> In st' (explore H fuel big (mkC blobs ts)).
+Proof.
+  intros F E Fd. apply (split_writes_explored H big (mkC blobs ts) sched st'); auto; simpl.
+  - eapply Forall_impl; [|exact F]. intros t [A _]. exact A.
+  - eapply Forall_impl; [|exact F]. intros t [A B]. apply fits_started; auto.
+Qed.
